@@ -10,8 +10,8 @@ U = project.uncps
 PLANS = {
     # tier -> [(profile, MaxOps)]
     # (profile, MaxOps) exhaustive; (profile, MaxOps, n) = n simulated behaviours (random deep filters)
-    "quick": [("logic", 2), ("arith", 1), ("strings", 1), ("misc", 1), ("math", 1), ("temporal", 1), ("logic", 7, 1200), ("arith", 5, 150), ("strings", 4, 150)],
-    "thorough": [("logic", 3), ("arith", 2), ("strings", 2), ("misc", 2), ("math", 2), ("temporal", 2), ("logic", 8, 6000), ("arith", 6, 3000),
+    "quick": [("logic", 2), ("arith", 1), ("strings", 1), ("misc", 1), ("math", 1), ("temporal", 1), ("long", 1), ("logic", 7, 1200), ("arith", 5, 150), ("strings", 4, 150)],
+    "thorough": [("logic", 3), ("arith", 2), ("strings", 2), ("misc", 2), ("math", 2), ("temporal", 2), ("long", 2), ("logic", 8, 6000), ("arith", 6, 3000),
                  ("strings", 5, 3000), ("misc", 4, 3000)],
 }
 
@@ -116,7 +116,7 @@ def describe(groups, cols, ids):
 
 
 def run(ctx, backend):
-    ctx.rule = ("typed scalar filters from derivation machine MC_Sem (profiles logic / arith / strings / misc / math / temporal), each "
+    ctx.rule = ("typed scalar filters from derivation machine MC_Sem (profiles logic / arith / strings / misc / math / temporal / long = in-lists of 1203 items), each "
                 "with the valuations of its referenced columns for which Sem!Eval = TRUE over the domain "
                 "{NULL,-2,0,1,3} x {NULL,'','a','ab','ba','a%b','a_b','%','_',\"o'r\",'\\\\','a b'} x {NULL,T,F} x 4 datetimes "
                 "(temporal profile: a second instant, dates, times of day, durations; literals with UTC offsets; instant +- duration, "
@@ -133,7 +133,7 @@ def run(ctx, backend):
     plans = PLANS[ctx.tier]
     if ctx.tier == "quick" and backend != "sqlite":
         # the ORM round trip costs ~2 ms per query: smaller exhaustive bound, same simulated depth
-        plans = [("logic", 1), ("arith", 1), ("strings", 1), ("misc", 1), ("math", 1), ("temporal", 1), ("logic", 7, 700), ("arith", 5, 150), ("strings", 4, 150)]
+        plans = [("logic", 1), ("arith", 1), ("strings", 1), ("misc", 1), ("math", 1), ("temporal", 1), ("long", 1), ("logic", 7, 700), ("arith", 5, 150), ("strings", 4, 150)]
     for plan in plans:
         prof, mo = plan[0], plan[1]
         consts = {"MaxOps": mo, "Profile": '"%s"' % prof, "Backend": '"%s"' % backend}
